@@ -96,6 +96,17 @@ func (e *BrokenCodecErr) FromJSONRPCError(j jsonrpc.JSONRPCError) error {
 	return nil
 }
 
+// NilSafeErr: its Error method works on a nil receiver, so a typed nil pointer is a
+// perfectly good (non-nil) error value.
+type NilSafeErr struct{ Msg string }
+
+func (e *NilSafeErr) Error() string {
+	if e == nil {
+		return "nilsafe:<nil>"
+	}
+	return "nilsafe:" + e.Msg
+}
+
 // wrapErr: an unregistered error type that wraps a registered one (Unwrap).
 type wrapErr struct {
 	msg   string
@@ -133,6 +144,9 @@ func (h *H) mk() error {
 		return &wrapErr{msg: h.msg, inner: &PtrErr{Msg: "inner", N: h.n}}
 	case 8:
 		return fmt.Errorf("annotated %s: %w", h.msg, &CodecErr{Detail: "inner", K: h.n})
+	case 9:
+		var e *NilSafeErr // a nil pointer inside a non-nil error interface
+		return e
 	}
 	return nil
 }
@@ -177,7 +191,7 @@ func table(which int, altCodes bool) *jsonrpc.Errors {
 
 // HarnessErrors: handler outcome x error type x registration tables x method shape x transport.
 func HarnessErrors() {
-	h := &H{kind: verif.Choice("kind", 9), msg: verif.String("msg", 3), n: verif.Int("n")}
+	h := &H{kind: verif.Choice("kind", 10), msg: verif.String("msg", 3), n: verif.Int("n")}
 	verif.Assume(h.n >= -(1<<53) && h.n <= 1<<53)
 	srvTab := verif.Choice("server_table", 3)
 	cliTab := verif.Choice("client_table", 3)
@@ -282,6 +296,8 @@ func HarnessErrors() {
 		generic("wrap:"+h.msg, 1)
 	case 8:
 		generic("annotated "+h.msg+": codec:inner", 1)
+	case 9:
+		generic("nilsafe:<nil>", 1)
 	case 6:
 		// the server-side conversion fails: the error must still arrive, as the generic error
 		generic("broken:"+h.msg, 1)
